@@ -226,7 +226,28 @@ func TestVerifC14Text(t *testing.T) {
 			// ptr=1: any function symbol of the binary, patched by address with patch.Ptr
 			fn, ok := zzC14Funcs[strings.TrimPrefix(kv["name"], c14pkg)]
 			var entry uintptr
-			if kv["ptr"] == "1" {
+			var mfnRegion uintptr
+			var mfnSnap []byte
+			if v := kv["mfn"]; v != "" {
+				// a target of exactly E code bytes, P bytes of INT3 padding (pad=P, 0..15) and then its successor, in a
+				// private executable mapping: the true extent of the target's slot is E+P
+				e, pd := int(vh.U64(v)), int(vh.U64(kv["pad"]))
+				r, _, er := syscall.Syscall6(syscall.SYS_MMAP, 0, 3*4096, syscall.PROT_READ|syscall.PROT_WRITE, syscall.MAP_PRIVATE|syscall.MAP_ANON, ^uintptr(0), 0)
+				if er != 0 {
+					panic("c14 probe: mmap: " + er.Error())
+				}
+				reg := c14raw(r, 3*4096)
+				copy(reg[4096:], c14u.PaddedFunc(e, pd))
+				for k := range reg {
+					if k < 4096 || k >= 4096+len(c14u.PaddedFunc(e, pd)) {
+						reg[k] = 0xcc
+					}
+				}
+				syscall.Syscall(syscall.SYS_MPROTECT, r, 3*4096, syscall.PROT_READ|syscall.PROT_EXEC)
+				mfnRegion, mfnSnap = r, append([]byte(nil), reg...)
+				entry = r + 4096
+				kv["ptr"] = "1"
+			} else if kv["ptr"] == "1" {
 				sy, ok2 := byName[kv["name"]]
 				if !ok2 {
 					out.Put(op.Idx, "no-such-symbol")
@@ -240,6 +261,27 @@ func TestVerifC14Text(t *testing.T) {
 				entry = reflect.ValueOf(fn).Pointer()
 			}
 			pbase := entry&^4095 - 4096
+			orig13 := append([]byte(nil), c14raw(entry, 13)...)
+			mfnStray := func() int { // bytes of the private mapping that changed outside the 13 entry bytes
+				if mfnRegion == 0 {
+					return 0
+				}
+				n := 0
+				reg := c14raw(mfnRegion, 3*4096)
+				for k := range reg {
+					a := mfnRegion + uintptr(k)
+					if reg[k] != mfnSnap[k] && !(a >= entry && a < entry+13) {
+						n++
+					}
+				}
+				return n
+			}
+			mfnDone := func() {
+				if mfnRegion != 0 {
+					bytecode.ZZVerifC14ClearFuncSize(entry)
+					syscall.Syscall(syscall.SYS_MUNMAP, mfnRegion, 3*4096, 0)
+				}
+			}
 			if kv["inject"] == "1" {
 				bytecode.ZZVerifC14SetFuncSize(entry, int(vh.U64(op.Toks[2])))
 			}
@@ -268,8 +310,8 @@ func TestVerifC14Text(t *testing.T) {
 				}
 				reg[o+mphN-1] = 0xc3
 				nb := o + mphN
-				if kv["pad"] == "1" { // ... or with 16 bytes of INT3 padding that belong to the placeholder's slot
-					nb += 16
+				if v := kv["pad"]; v != "" { // ... or with P bytes of INT3 padding that belong to the placeholder's slot
+					nb += int(vh.U64(v))
 				}
 				for k := 0; k < 63; k++ {
 					reg[nb+k] = 0x58 // the neighbour: POP AX ...
@@ -297,7 +339,7 @@ func TestVerifC14Text(t *testing.T) {
 						pc = c14u.PanicClass(r)
 					}
 				}()
-				if kv["ptr"] == "1" {
+				if kv["ptr"] == "1" { // (also the private-mapping targets)
 					g, err = Ptr(entry, c14repl)
 				} else if tramp != nil {
 					g, err = Trampoline(fn, c14repl, tramp)
@@ -327,6 +369,11 @@ func TestVerifC14Text(t *testing.T) {
 					bytecode.ZZVerifC14ClearFuncSize(trampAddr)
 					syscall.Syscall(syscall.SYS_MUNMAP, mphRegion, 3*4096, 0)
 				}
+				n += mfnStray()
+				if mfnRegion != 0 && !bytes.Equal(c14raw(entry, 13), orig13) {
+					n += 13
+				}
+				mfnDone()
 				out.Put(op.Idx, "refused:%s | panic=%s textdiff=%d image_same=%v pbase=%#x", c14errClass(err), pc, n, image() == image0, pbase)
 				continue
 			}
@@ -359,7 +406,12 @@ func TestVerifC14Text(t *testing.T) {
 				}
 				syscall.Syscall(syscall.SYS_MPROTECT, p, ln, syscall.PROT_READ|syscall.PROT_EXEC)
 			}
-			origAt := func(i int) byte { return pristine[entry-textLo+uintptr(i)] }
+			origAt := func(i int) byte {
+				if entry < textLo || entry >= textHi {
+					return 0
+				}
+				return pristine[entry-textLo+uintptr(i)]
+			}
 			poke(func(i int) byte { return origAt(i) ^ 0xa5 })
 			snap := func() []byte {
 				n := scrHi
@@ -408,8 +460,8 @@ func TestVerifC14Text(t *testing.T) {
 			strayDist := 0
 			if mphRegion != 0 {
 				trampDist = mphN
-				if kv["pad"] == "1" {
-					trampDist += 16
+				if v := kv["pad"]; v != "" {
+					trampDist += int(vh.U64(v))
 				}
 				reg := c14raw(mphRegion, 3*4096)
 				for k := range reg {
@@ -438,6 +490,7 @@ func TestVerifC14Text(t *testing.T) {
 					}
 				}
 			}
+			mfnStrayApplied := mfnStray()
 			c14u.Begin(3*op.Idx + 2)
 			g.UnpatchWithLock()
 			c14u.End(3*op.Idx + 2)
@@ -446,7 +499,7 @@ func TestVerifC14Text(t *testing.T) {
 			scr := scribbleOK(s1) && scribbleOK(s2)
 			poke(origAt) // put the original bytes back
 			back := c14raw(entry, 13)
-			restored := bytes.Equal(back, pristine[entry-textLo:entry-textLo+13])
+			restored := bytes.Equal(back, orig13)
 			nAfter, alo, ahi := textDiff()
 			strayAfter := 0
 			if nAfter > 0 { // the placeholder legitimately keeps the relocated copy; anything else is stray
@@ -471,8 +524,9 @@ func TestVerifC14Text(t *testing.T) {
 				syscall.Syscall(syscall.SYS_MPROTECT, p, ln, syscall.PROT_READ|syscall.PROT_EXEC)
 			}
 			_ = plo
-			out.Put(op.Idx, "apply=ok entry=%s unpatch=ok restored=%v lens=%d/%d | apply_ext=%s unpatch_ext=%s scribble=%v scr_hi=%d to_ok=%v n_patch=%d tramp_written=%d..%d n_apply=%d stray=%d stray_after=%d image_applied=%v image_after=%v pbase=%#x entry=%#x tramp=%#x trampsize=%d trampdist=%d stray_dist=%d",
-				c14maskJump(after), restored, obLen, jbLen, applyExt, unpatchExt, scr, scrHi, toOK, nPatch, int64(plo)-int64(trampAddr), int64(phi)-int64(trampAddr), nApply, stray, strayAfter, imgApplied, image() == image0, pbase, entry, trampAddr, trampSize, trampDist, strayDist)
+			out.Put(op.Idx, "apply=ok entry=%s unpatch=ok restored=%v lens=%d/%d | apply_ext=%s unpatch_ext=%s scribble=%v scr_hi=%d to_ok=%v n_patch=%d tramp_written=%d..%d n_apply=%d stray=%d stray_after=%d image_applied=%v image_after=%v pbase=%#x entry=%#x tramp=%#x trampsize=%d trampdist=%d stray_dist=%d mfn_stray=%d",
+				c14maskJump(after), restored, obLen, jbLen, applyExt, unpatchExt, scr, scrHi, toOK, nPatch, int64(plo)-int64(trampAddr), int64(phi)-int64(trampAddr), nApply, stray, strayAfter, imgApplied, image() == image0, pbase, entry, trampAddr, trampSize, trampDist, strayDist, mfnStrayApplied+mfnStray())
+			mfnDone()
 		}
 	}
 	if n, _, _ := textDiff(); n != 0 {
